@@ -10,6 +10,7 @@ def run(tier, seed):
     B = vlib.build('plain')
     shim = execrun.build_shim(B)
     rnd = random.Random(seed)
+    inherited = os.umask(0o22); os.umask(inherited)
     e1 = vlib.model_check('ExecutorE1.tla', 'ExecutorE1.cfg', wd, workers=8)
     if not e1['ok']:
         raise vlib.Broken('ExecutorE1: the descriptor plan model does not route per contract:\n' + e1['out'][-2500:])
@@ -47,7 +48,9 @@ def run(tier, seed):
     # requests of two tasks (one echsx takes them in turn): a short task whose output is mailed goes first, then the job
     for (so, se, mo, me) in rows:
         for v in variants()[:2] + variants()[3:4]:
-            jobs.append(({'so': so, 'se': se, 'mo': mo, 'me': me, 'umask': 0o22, 'stdin': 'in2', 'shell': '/bin/sh', 'warmup': True}, v))
+            # half of them say nothing about the umask (neither does the task before them): the job runs with the one the executor was started with
+            nou = rnd.random() < 0.5
+            jobs.append(({'so': so, 'se': se, 'mo': mo, 'me': me, 'umask': inherited if nou else 0o22, 'noumask': nou, 'stdin': 'in2', 'shell': '/bin/sh', 'warmup': True}, v))
     # requests whose shell does not exist
     for (so, se, mo, me) in rows[::2]:
         jobs.append(({'so': so, 'se': se, 'mo': mo, 'me': me, 'umask': 0o22, 'stdin': 'x', 'nospawn': True}, dict(bursts=[(1, 1)], exitcode=7)))
